@@ -13,8 +13,8 @@ git apply --check $md/patch.diff || { echo "$pid m$k: patch does not apply"; exi
 git apply $md/patch.diff
 go build ./... || { echo "$pid m$k: does not build"; git checkout -q -- .; exit 1; }
 pk=$(go list ./... | grep -v /mutations)
-go test -vet=off -count=1 $pk > /tmp/suite_$pid_$k.log 2>&1
-fails=$(grep -E "^(--- FAIL|FAIL)" /tmp/suite_$pid_$k.log | grep -v "TestCgroupAll\|pkg/cgroup\|^FAIL$" | head -3)
+go test -vet=off -count=1 $pk > /tmp/suite_${pid}_$k.log 2>&1
+fails=$(grep -E "^(--- FAIL|FAIL)" /tmp/suite_${pid}_$k.log | grep -v "TestCgroupAll\|pkg/cgroup\|^FAIL$" | head -3)
 run_demo; with=$?
 git checkout -q -- .
 run_demo; without=$?
